@@ -82,11 +82,15 @@ inductive RExp
   | v (x : VExp) | b (x : BExp) | e (x : EExp)
 deriving Repr
 
+/-- Operations on `t.mutex`. -/
+inductive Sync | rlock | runlock | lock | unlock | deferRUnlock | deferUnlock
+deriving Repr, DecidableEq
+
 inductive Stmt
   | skip
   | seq (a b : Stmt)
   | ite (c : BExp) (a b : Stmt)
-  | sync (what : String)
+  | sync (what : Sync)
   | kvGet (outY outE : Nat)          -- `y, e = t.kv.Get(t.keyBytes)`
   | kvHas (outB outE : Nat)          -- `b, e = t.kv.Has(t.keyBytes)`
   | kvSet (inY outE : Nat)           -- `e = t.kv.Set(t.keyBytes, y)`
@@ -233,6 +237,83 @@ def exec [Inhabited V] (C : Codec V) (f : V → Bool → FnRes V) (F : Faults) :
   | .ret rs, m => match evalRs rs m with
     | none => .panic m
     | some r => .done m r
+
+/-! ## Lock discipline of a translated body (a decidable, path-sensitive walk)
+
+The protocol model (`Hive/Model/TypedConc.lean`) puts every read of the shared fields under the read or the write
+lock and every write, store call, codec call and the compute function under the write lock, released on every
+return.  `lockWalk` checks exactly that on a translated body: it follows every path, tracking which lock is held and
+whether its release is deferred. -/
+
+inductive Held | none | r | w
+deriving DecidableEq, Repr
+
+structure LSt where
+  held : Held
+  deferred : Bool      -- the release of the held lock is deferred to the return
+deriving DecidableEq, Repr
+
+inductive LRes
+  | bad (why : String)
+  | returned
+  | falls (l : LSt)
+deriving DecidableEq, Repr
+
+/-- Does the condition look at the shared cache fields? -/
+def BExp.shared : BExp → Bool
+  | .cvNil | .cvNotNil | .chNil | .chNotNil | .derefCh => true
+  | .not a => a.shared
+  | .and a b => a.shared || b.shared
+  | .or a b => a.shared || b.shared
+  | _ => false
+
+def RExp.shared : RExp → Bool
+  | .v .derefCv => true
+  | .b x => x.shared
+  | _ => false
+
+def needW (l : LSt) (what : String) : LRes := if l.held = .w then .falls l else .bad (what ++ " outside the write lock")
+def needRW (l : LSt) (what : String) : LRes := if l.held ≠ .none then .falls l else .bad (what ++ " outside any lock")
+
+def lockWalk : Stmt → LSt → LRes
+  | .skip, l => .falls l
+  | .seq a b, l => match lockWalk a l with
+    | .falls l' => lockWalk b l'
+    | r => r
+  | .ite c a b, l =>
+    if c.shared && l.held = .none then .bad "condition on the cache fields outside any lock" else
+    match lockWalk a l, lockWalk b l with
+    | .bad w, _ => .bad w
+    | _, .bad w => .bad w
+    | .returned, r => r
+    | r, .returned => r
+    | .falls l1, .falls l2 => if l1 = l2 then .falls l1 else .bad "branches leave different locks held"
+  | .sync .rlock, l => if l.held = .none then .falls ⟨.r, false⟩ else .bad "RLock while a lock is held"
+  | .sync .lock, l => if l.held = .none then .falls ⟨.w, false⟩ else .bad "Lock while a lock is held"
+  | .sync .runlock, l => if l.held = .r && !l.deferred then .falls ⟨.none, false⟩ else .bad "RUnlock without the read lock"
+  | .sync .unlock, l => if l.held = .w && !l.deferred then .falls ⟨.none, false⟩ else .bad "Unlock without the write lock"
+  | .sync .deferRUnlock, l => if l.held = .r && !l.deferred then .falls ⟨.r, true⟩ else .bad "defer RUnlock without the read lock"
+  | .sync .deferUnlock, l => if l.held = .w && !l.deferred then .falls ⟨.w, true⟩ else .bad "defer Unlock without the write lock"
+  | .kvGet _ _, l => needW l "store read"        -- the slow paths and Compute read the store under the write lock
+  | .kvHas _ _, l => needW l "store read"
+  | .kvSet _ _, l => needW l "store write"
+  | .kvDel _, l => needW l "store write"
+  | .decode _ _ _, l => needW l "decode"
+  | .encode _ _ _, l => needW l "encode"
+  | .callFn _ _ _ _, l => needW l "compute function"
+  | .cached _ _, l => needRW l "cachedValue"
+  | .setB _ x, l => if x.shared then needRW l "read of the cache fields" else .falls l
+  | .cvAddr _, l => needW l "cache write"
+  | .cvNil, l => needW l "cache write"
+  | .chAddrGlobal _, l => needW l "cache write"
+  | .chAddr _, l => needW l "cache write"
+  | .ret rs, l =>
+    if rs.any RExp.shared && l.held = .none then .bad "result reads the cache fields outside any lock"
+    else if l.held ≠ .none && !l.deferred then .bad "return with a lock held and no deferred release"
+    else .returned
+
+/-- Every path of the body returns, and none violates the discipline. -/
+def lockOk (s : Stmt) : Bool := lockWalk s ⟨.none, false⟩ == .returned
 
 /-! ## From raw results to the model's `Out` (what the harness's `errKind` / result printing does) -/
 
